@@ -64,7 +64,11 @@ def build(case):
         return M.enc_pix(M.rand_pixels(rng, side, side, "random"), side) + bytes(rng.randrange(256) for _ in range(case.get("pad", 0))), [], (side, side), 0
     if fmt == "mge":
         pix = M.rand_pixels(rng, 320, 200, case.get("content", "runs"))
-        return M.enc_mge(pix, pal, case["rgb"], case["comp"], rng, case.get("preset", "random")), [], (320, 200), 0
+        M.MGE_TITLE[0] = case["title"].encode("latin-1") if case.get("title") is not None else None
+        try:
+            return M.enc_mge(pix, pal, case["rgb"], case["comp"], rng, case.get("preset", "random")), [], (320, 200), 0
+        finally:
+            M.MGE_TITLE[0] = None
     if fmt == "rat":
         pix = M.rand_pixels(rng, 320, 199, case.get("content", "runs"))
         data, esc = M.enc_rat(pix, pal, rng, case.get("preset", "random"), escape=case.get("escape"))
@@ -111,6 +115,34 @@ def piped(fmt, data, args, use_stdin, use_stdout, dash=False):
         except OSError:
             pass
     return {"rc": p.returncode, "out": out}
+
+
+def piped_chunked(fmt, data, args, cuts, pause=0.15):
+    """The decoder as a real subprocess reading standard input, the input written in pieces (cut at the offsets `cuts`)
+    with a pause after each piece: how a producer happens to time its writes is no part of the picture."""
+    import time
+
+    argv = [sys.executable, "-c", "import sys;from vlib import boot;boot.assert_repo();import importlib;"
+            "importlib.import_module(%r).start(sys.argv[1:])" % D.MODULES[fmt]] + list(args) + ["-", "-"]
+    p = subprocess.Popen(argv, stdin=subprocess.PIPE, stdout=subprocess.PIPE, stderr=subprocess.DEVNULL, cwd=run.HOME)
+    pos = 0
+    try:
+        for c in sorted(set(cuts)) + [len(data)]:
+            if c > pos:
+                p.stdin.write(data[pos:c])
+                p.stdin.flush()
+                pos = c
+                time.sleep(pause)
+        p.stdin.close()
+    except (BrokenPipeError, OSError):
+        pass
+    try:
+        out = p.stdout.read()
+        rc = p.wait(timeout=120)
+    except subprocess.TimeoutExpired:
+        p.kill()
+        return {"rc": "timeout", "out": None}
+    return {"rc": rc, "out": out}
 
 
 def run_optprobe(case):
@@ -160,7 +192,7 @@ def run_case(case):
     fmt = case["fmt"]
     obs = {"counters": {"decodes": 1}, "viols": [], "sets": {"formats": [fmt]}}
     data, args, size, skip = build(case)
-    obs["key"] = "%s|%s|%s|%s|%s" % (fmt, size, " ".join(args), case.get("content"), str(case.get("preset")) + ("+stretch" if case.get("stretch") else "") + ("+highbits" if case.get("highbits") else "") + ("+esc%d" % case["escape"] if case.get("escape") is not None else "") + ("+ext%s" % case["in_ext"] if case.get("in_ext") is not None else "") + ("+pad%d" % case["pad"] if case.get("pad") else ""))
+    obs["key"] = "%s|%s|%s|%s|%s" % (fmt, size, " ".join(args), case.get("content"), str(case.get("preset")) + ("+stretch" if case.get("stretch") else "") + ("+highbits" if case.get("highbits") else "") + ("+esc%d" % case["escape"] if case.get("escape") is not None else "") + ("+ext%s" % case["in_ext"] if case.get("in_ext") is not None else "") + ("+pad%d" % case["pad"] if case.get("pad") else "") + ("+title%r" % case["title"] if case.get("title") is not None else ""))
     res = D.decode(fmt, data, args, in_ext=case.get("in_ext"))
     cl = observe.classify(fmt, res)
     detail = {"case": case, "args": args, "input_bytes": len(data), "expected_size": size}
@@ -301,6 +333,8 @@ def cases(tier, seed):
             yield c(fmt="vef", vt=vt, sq=sq, highbits=True)
     yield c(fmt="hrs", w=16, h=3, highbits=True)
     yield c(fmt="mge", rgb=True, comp=True, highbits=True)
+    for k_, title in enumerate(["\x8f\x8f CASTLE", "CH\xc2TEAU", "\xff\xfe\x80", "", "A" * 29, "caf\xe9 \x9f"]):
+        yield c(fmt="mge", rgb=(k_ % 2 == 0), comp=(k_ % 3 != 0), title=title, pipes=(k_ < 2))
     yield c(fmt="cm3", two=False, pat=True, preset="mixed", highbits=True)
     yield c(fmt="rat", highbits=True)
     # the escape byte is the encoder's free choice: every value that means something special somewhere (0, line ends, ^Z,
